@@ -33,9 +33,11 @@ impl<const TOTAL_NUM_BITS: u32, const NUM_INDEX_BITS: u32>
     /// `pa.tick()` advances the phase accumulator by 1 tick, expected to be called at the sample rate
     pub fn tick(&mut self) {
         self.accumulator += self.increment;
+        // a carry out of the accumulator bits is a rollover even if the increment is one or more whole cycles
+        let carried_out = self.rollover_mask < self.accumulator;
         self.accumulator &= self.rollover_mask;
 
-        if self.accumulator < self.last_accumulator {
+        if carried_out || self.accumulator < self.last_accumulator {
             self.rolled_over = true;
         }
 
